@@ -9,7 +9,7 @@ block is left misaligned although the module's alignment table - as written by
 the same apply() - demands the alignment.  With an (even empty) alignment table
 present, or with a PE module, the same rewrite pads correctly.
 
-Run:  /venv/bin/python /verif/findings/KF-C10-2/repro.py     (exit 1 = defect present)
+Run:  /venv/bin/python /verif/findings/FX-C10-2/repro.py     (exit 1 = defect present)
 """
 import sys
 
